@@ -20,7 +20,8 @@ func init() {
 		Trusted: []string{"go/types", "go/ssa", "regexp/syntax"},
 		Run: func(c *Ctx) {
 			runC06(c, "C06")
-			importRules(c, "C19", runC19, "C06-ALLFILES", "every .go file of a directory/glob run is handed to the injector: the file loops leave only through their headers and ignore the per-file result (rule C19-ISOLATE)", 2, ruleIn("C19-ISOLATE"))
+			runUnits(c, "C06-UNITS", "file", "")
+			importRules(c, "C19", func(s *Ctx) { runC19(s); runC19Dispatch(s, "C19-DISPATCH") }, "C06-ALLFILES", "every .go file named by -f, -p or -d is handed to the injector: the file loops leave only through their headers and ignore the per-file result, and each flag reaches the handler of its own kind (rules C19-ISOLATE, C19-DISPATCH)", 6, ruleIn("C19-ISOLATE", "C19-DISPATCH"))
 		},
 	})
 	register(&PropDef{
@@ -42,7 +43,11 @@ func init() {
 			"Not covered: filesystem faults.",
 		Assume:  []string{"go/ast documented optional fields", "a tag literal's source text is quoted (len >= 2)"},
 		Trusted: []string{"go/types", "go/ssa", "regexp/syntax"},
-		Run:     runC19,
+		Run: func(c *Ctx) {
+			runC19(c)
+			runC19Dispatch(c, "C19-DISPATCH")
+			importRules(c, "C06", func(s *Ctx) { runC06(s, "C06") }, "C19-KEEP", "a field whose @tag text is malformed (no key:\"value\" item) or whose span cannot be matched leaves the file intact: on every path the splice returns the bytes before the field, the (possibly unchanged) field text and the bytes after it (rules C06-SPLICE, C06-SPAN) — a path that returns nothing truncates the file", 2, ruleIn("C06-SPLICE", "C06-SPAN"))
+		},
 	})
 }
 
